@@ -1341,7 +1341,8 @@ where
                     }
                     // ClassSetCharacter:: \b
                     0x62 /* b */ => {
-                        Ok(ClassSetCharacter(self.consume(cp)))
+                        self.consume(cp);
+                        Ok(ClassSetCharacter(0x08))
                     }
                     // ClassSetCharacter:: \ ClassSetReservedPunctuator
                     _ if Self::is_class_set_reserved_punctuator(cp) => Ok(ClassSetCharacter(self.consume(cp))),
@@ -1394,7 +1395,8 @@ where
                 match cp {
                     // \b
                     0x62 /* b */ => {
-                        Ok(self.consume(cp))
+                        self.consume(cp);
+                        Ok(0x08)
                     }
                     // \ ClassSetReservedPunctuator
                     _ if Self::is_class_set_reserved_punctuator(cp) => Ok(self.consume(cp)),
